@@ -114,7 +114,7 @@ func runC30(c *Ctx) {
 					// second argument is Len() of the detach list passed on
 					a := cl.Call.Args
 					lenCall, ok := ssau.Unwrap(a[len(a)-1]).(*ssa.Call)
-					if !ok || !methodCallNamed(lenCall, "Len") || len(lenCall.Call.Args) == 0 || lenCall.Call.Args[0] != detach {
+					if !ok || !methodCallNamed(lenCall, "Len") || len(lenCall.Call.Args) == 0 || ssau.Unwrap(lenCall.Call.Args[0]) != ssau.Unwrap(detach) {
 						return false, false
 					}
 					return true, neg // required: result false
@@ -258,6 +258,30 @@ func runC12(c *Ctx) {
 		}
 		// required: node work > best work (any equivalent spelling of the big.Int comparison)
 		c.G2("G2-work", "connectBestChain|more work than the tip", cbc, rc, "node.WorkSum > b.BestChain.WorkSum (big.Int.Cmp)", bigRelArm(fromNode, fromBest, func(c int) bool { return c > 0 }))
+		// nothing else keeps a heavier side chain from being adopted: every branch that decides whether reorganizeChain
+		// can still run is the tip-extension test, the work comparison or the irreversibility test
+		if rc != nil {
+			nd := 0
+			for _, i := range divertingBranches(cbc, rc) {
+				nd++
+				kind := ""
+				base, _ := ssau.StripNot(i.Cond)
+				if m, _ := bigRelArm(fromNode, fromBest, func(c int) bool { return c > 0 })(i); m {
+					kind = "work"
+				} else if v, _, ok := ssau.NilTest(i.Cond); ok && ssau.IsFieldOf(ssau.Unwrap(v), "BlockChain", "BestChain") {
+					kind = "no tip yet"
+				} else if cl, ok := base.(*ssa.Call); ok && methodCallNamed(cl, "IsEqual") && ssau.DependsOn(cl, func(y ssa.Value) bool { return ssau.IsFieldOf(y, "BlockChain", "BestChain") }) {
+					kind = "extends the tip"
+				} else if ssau.DependsOn(base, func(y ssa.Value) bool { return methodCallNamed(y, "IsIrreversible") }) {
+					kind = "irreversible"
+				} else if _, isCall := base.(*ssa.Call); isCall && ssau.DependsOn(base, func(y ssa.Value) bool { return ssau.IsFieldOf(y, "BlockNode", "WorkSum") }) {
+					kind = "work (through a predicate; the relation itself is decided by the rule above)"
+				}
+				c.R.Check("G2-work", "connectBestChain|only work, tip extension and irreversibility decide|"+ssau.CondString(base), kind != "", c.posOf(i),
+					fmt.Sprintf("the branch on %s decides whether reorganizeChain can run but is neither the tip-extension test, the cumulative-work comparison nor the irreversibility test: a side chain with more work can be left unadopted", ssau.CondString(base)))
+			}
+			c.R.FloorCheck("G2-work deciding branches", nd, 3)
+		}
 		// the tip-extension arm: connectBlock checked
 		c.G1s("G2-work", "connectBestChain|connectBlock or reorganize", cbc, "connectBlock / reorganizeChain", callPred(R{"blockchain", "BlockChain", "connectBlock"}, R{"blockchain", "BlockChain", "reorganizeChain"}), G1Opt{HasIdx: true, Idx: 2, IgnoreExit: func(ret *ssa.Return) bool {
 			// exits that report "not in main chain" (first result false) do not claim a connection
@@ -277,6 +301,31 @@ func runC12(c *Ctx) {
 			}
 			return false, false
 		})
+	}
+	if pb := c.fn("blockchain", "BlockChain", "processBlock"); pb != nil {
+		// every block accepted (main or side chain) releases the orphans waiting for it: a heavier branch whose
+		// blocks arrived out of order is only assembled, and compared by work, through ProcessOrphans
+		if mab := firstCall(pb, callPred(R{"blockchain", "BlockChain", "maybeAcceptBlock"})); mab != nil {
+			cut := ssau.NewCut()
+			po := ssau.CallsIn(pb, callPred(R{"blockchain", "BlockChain", "ProcessOrphans"}))
+			for _, ci := range po {
+				cut.AddInstr(ci)
+			}
+			after := ssau.ReachAfter(pb, mab, cut)
+			bad := ""
+			for _, ret := range ssau.Returns(pb) {
+				if after.Instr(ret) && !c.failingReturn(pb, ret) {
+					bad = c.posOf(ret)
+				}
+			}
+			c.R.Check("G1-valid", "processBlock|orphans released after every accepted block", len(po) > 0 && bad == "", c.posOf(mab),
+				"after maybeAcceptBlock succeeded a success return "+bad+" is reachable without ProcessOrphans(&blockHash): orphans whose parent just arrived (on a side chain too) stay orphans and their branch is never compared by work")
+			for _, ci := range po {
+				a := ci.Common().Args
+				okArg := ssau.DependsOn(a[len(a)-1], func(x ssa.Value) bool { return methodCallNamed(x, "Hash") })
+				c.R.Check("G1-valid", "processBlock|ProcessOrphans(&block hash)", okArg, c.posOf(ci), "ProcessOrphans is applied to the hash of the block just accepted")
+			}
+		}
 	}
 	if cb := c.fn("blockchain", "BlockChain", "connectBlock"); cb != nil {
 		save := firstCall(cb, namedCall("SaveBlock"))
@@ -380,4 +429,22 @@ func runC12(c *Ctx) {
 		c.R.Check("G1-valid", "maybeAcceptBlock|WorkSum = parent + own", ok, c.pos(ma.Pos()), "newNode.WorkSum.Add(prevNode.WorkSum, newNode.WorkSum)")
 		c.G1s("G1-valid", "maybeAcceptBlock|connectBestChain", ma, "connectBestChain", callPred(R{"blockchain", "BlockChain", "connectBestChain"}), G1Opt{})
 	}
+}
+
+// divertingBranches lists the branches of fn that decide whether target can still be executed: one arm can reach
+// the target, the other cannot.
+func divertingBranches(fn *ssa.Function, target ssa.Instruction) []*ssa.If {
+	var out []*ssa.If
+	for _, i := range ssau.Ifs(fn) {
+		b := i.Block()
+		if len(b.Succs) != 2 {
+			continue
+		}
+		r0 := ssau.ReachFromBlock(fn, b.Succs[0], nil).Instr(target)
+		r1 := ssau.ReachFromBlock(fn, b.Succs[1], nil).Instr(target)
+		if r0 != r1 {
+			out = append(out, i)
+		}
+	}
+	return out
 }
